@@ -21,7 +21,9 @@ func (r *Router) proxy(w http.ResponseWriter, req *http.Request) {
 	defer req.Body.Close()
 	reqBod, _ := io.ReadAll(req.Body)
 	buf := bytes.NewBuffer(reqBod)
-	upstreamReq, err := http.NewRequest(req.Method, upstreamTarget+req.URL.String(), buf)
+	// RequestURI is the path and query only; URL.String would also carry the scheme
+	// and host of a request-target in absolute-form (RFC 7230 5.3.2)
+	upstreamReq, err := http.NewRequest(req.Method, upstreamTarget+req.URL.RequestURI(), buf)
 	if err != nil {
 		r.handlerReturnWithError(w, ErrUpstreamFailed, err)
 		return
